@@ -273,6 +273,13 @@ Record Inv : Prop := mkInv {
 }.
 
 (* ---------------- Rel implies equal views ---------------- *)
+Lemma view_ext v w :
+  v_canon v = v_canon w -> v_hdr v = v_hdr w -> v_has_hdr v = v_has_hdr w -> v_parent v = v_parent w ->
+  v_body v = v_body w -> v_cbody v = v_cbody w -> v_cbody_nil v = v_cbody_nil w -> v_has_body v = v_has_body w ->
+  v_rcpt v = v_rcpt w -> v_crcpt v = v_crcpt w -> v_crcpt_nil v = v_crcpt_nil w -> v_has_rcpt v = v_has_rcpt w ->
+  v_bal v = v_bal w -> v_num v = v_num w -> v = w.
+Proof. destruct v, w; cbn; intros; subst; reflexivity. Qed.
+
 Lemma bal_kv_empty n : v_bal (V n) = [] -> oblob (get2 (n, C n) (k_bal (s_kv s0))) = [].
 Proof.
   unfold V, ChainFreezer.view_of; cbn [v_bal]. unfold read_bal_rlp.
@@ -292,27 +299,141 @@ Proof.
     { intros Hb. apply bal_kv_empty in Hb.
       destruct (get2 (n, C n) (k_bal (s_kv t))) as [v|] eqn:G; [|reflexivity].
       apply (R_sub_bal t R) in G. rewrite G in Hb. exact Hb. }
-    remember (V n) as v eqn:Hv.
-    unfold ChainFreezer.view_of, read_canonical_hash, ChainFreezer.read_header_rlp, has_header,
-      read_body_rlp, read_canonical_body_rlp, has_body, read_receipts_rlp,
-      read_canonical_receipts_rlp, has_receipts, read_bal_rlp, is_canon, read_header_number.
-    rewrite A, E1, E2, E3, E4, E5, E6, N.eqb_refl, c1, c3, c7. cbn [andb orb].
-    rewrite Hnum.
-    assert (Hn0 : get1 (C n) (k_num (s_kv s0)) = v_num v).
-    { subst v. reflexivity. }
-    assert (Hp : hdr_parent (v_hdr v) = v_parent v).
-    { subst v. reflexivity. }
-    assert (Hc : C n = v_canon v).
-    { subst v. reflexivity. }
-    rewrite Hn0, Hp.
-    destruct (nonempty (v_bal v)) eqn:Eb.
-    + destruct v; cbn in *; subst; reflexivity.
-    + assert (Hb0 : v_bal v = []) by (destruct (v_bal v); [reflexivity|discriminate]).
-      rewrite (Hbal Hb0). destruct v; cbn in *; subst; reflexivity.
+    apply view_ext; unfold V at 1; unfold ChainFreezer.view_of;
+      cbn [v_canon v_hdr v_has_hdr v_parent v_body v_cbody v_cbody_nil v_has_body
+           v_rcpt v_crcpt v_crcpt_nil v_has_rcpt v_bal v_num];
+      unfold read_canonical_hash, ChainFreezer.read_header_rlp, has_header,
+        read_body_rlp, read_canonical_body_rlp, has_body, read_receipts_rlp,
+        read_canonical_receipts_rlp, has_receipts, read_bal_rlp, is_canon, read_header_number;
+      rewrite ?A, ?E1, ?N.eqb_refl; cbn [andb orb].
+    + reflexivity.
+    + rewrite E2, c1, E3, N.eqb_refl. reflexivity.
+    + symmetry; exact c2.
+    + rewrite E2, c1, E3, N.eqb_refl. reflexivity.
+    + exact E4.
+    + rewrite E4, c3. symmetry; exact c4.
+    + rewrite E4, c3. symmetry; exact c5.
+    + symmetry; exact c6.
+    + exact E5.
+    + rewrite E5, c7. symmetry; exact c8.
+    + rewrite E5, c7. symmetry; exact c9.
+    + symmetry; exact c10.
+    + rewrite E6. destruct (nonempty (v_bal (V n))) eqn:Eb; [reflexivity|].
+      assert (Hb0 : v_bal (V n) = []) by (destruct (v_bal (V n)); [reflexivity|discriminate]).
+      rewrite (Hbal Hb0). symmetry; exact Hb0.
+    + exact Hnum.
   - rewrite (view_nofreeze _ _ _ A). apply (R_kv t R); [|exact HC].
     destruct (R_dur t R) as [_ H2].
     destruct (N.lt_ge_cases n (frozen (s_fz t))) as [L|L]; [|lia].
     destruct (ancient_lt _ _ L) as [it E]. congruence.
+Qed.
+
+(* ---------------- key-value-only views, field by field ---------------- *)
+Lemma nofreeze_view t h n :
+  view_of (nofreeze t) h n =
+  let k := s_kv t in
+  mkView (ohash (get1 n (k_canon k))) (oblob (get2 (n, h) (k_hdr k))) (kv_has (n, h) (k_hdr k))
+         (hdr_parent (oblob (get2 (n, h) (k_hdr k))))
+         (oblob (get2 (n, h) (k_body k))) (oblob (get2 (n, h) (k_body k)))
+         (oblob (get2 (n, ohash (get1 n (k_canon k))) (k_body k))) (kv_has (n, h) (k_body k))
+         (oblob (get2 (n, h) (k_rcpt k))) (oblob (get2 (n, h) (k_rcpt k)))
+         (oblob (get2 (n, ohash (get1 n (k_canon k))) (k_rcpt k))) (kv_has (n, h) (k_rcpt k))
+         (oblob (get2 (n, h) (k_bal k))) (get1 h (k_num k)).
+Proof.
+  unfold ChainFreezer.view_of, read_canonical_hash, ChainFreezer.read_header_rlp, has_header,
+    read_body_rlp, read_canonical_body_rlp, has_body, read_receipts_rlp, read_canonical_receipts_rlp,
+    has_receipts, read_bal_rlp, is_canon, read_header_number, nofreeze.
+  cbn [s_fz s_kv]. rewrite !ancient_nil. reflexivity.
+Qed.
+
+Lemma nonempty_oblob (o : option blob) : nonempty (oblob o) = true -> exists b, o = Some b.
+Proof. destruct o; [eauto | discriminate]. Qed.
+
+Definition submap1 {X} (m m0 : list (N * X)) : Prop :=
+  forall key v, get1 key m = Some v -> get1 key m0 = Some v.
+
+(* the canonical mapping of the key-value store only shrinks; kept separate from
+   [Rel] fields that mention blocks *)
+Definition canon_sub (t : st) : Prop := submap1 (k_canon (s_kv t)) (k_canon (s_kv s0)).
+
+Lemma canon_nonzero t n :
+  Rel s0 -> Rel t -> canon_sub t -> ohash (get1 n (k_canon (s_kv t))) <> 0 -> C n <> 0.
+Proof.
+  intros R0 R S H. destruct (get1 n (k_canon (s_kv t))) as [h|] eqn:G; [|cbn in H; congruence].
+  cbn in H. apply S in G. unfold C, read_canonical_hash.
+  destruct (ancient (s_fz s0) n) as [it|] eqn:A.
+  - destruct (R_items _ R0 n it A) as (E1 & E2 & _). unfold C, read_canonical_hash in E1, E2.
+    rewrite A in E1, E2. exact E2.
+  - rewrite G. exact H.
+Qed.
+
+(* ---------------- freezeRange ---------------- *)
+Definition item_ok (k : kvs) (n : N) (it : fitem) : Prop :=
+  let h := ohash (get1 n (k_canon k)) in
+  fi_hash it = h /\ h <> 0 /\
+  fi_hdr it = oblob (get2 (n, h) (k_hdr k)) /\ nonempty (fi_hdr it) = true /\
+  fi_body it = oblob (get2 (n, h) (k_body k)) /\ nonempty (fi_body it) = true /\
+  fi_rcpt it = oblob (get2 (n, h) (k_rcpt k)) /\ nonempty (fi_rcpt it) = true /\
+  fi_bal it = oblob (get2 (n, h) (k_bal k)).
+
+Lemma range_ok fuel k : forall number limit acc res,
+  freeze_range_loop fuel k number limit acc = RangeOk res ->
+  exists items, res = rev acc ++ items /\
+    forall i it, nth_error items i = Some it -> item_ok k (number + N.of_nat i) it.
+Proof.
+  induction fuel as [|fuel IH]; intros number limit acc res; cbn [freeze_range_loop];
+    destruct (limit <? number).
+  - intros H; inversion H. exists []. rewrite app_nil_r. split; [reflexivity|].
+    intros [|i] it; discriminate.
+  - discriminate.
+  - intros H; inversion H. exists []. rewrite app_nil_r. split; [reflexivity|].
+    intros [|i] it; discriminate.
+  - set (h := ohash (get1 number (k_canon k))).
+    destruct (h =? 0) eqn:E0; [discriminate|].
+    destruct (nonempty (oblob (get2 (number, h) (k_hdr k)))) eqn:E1; cbn [negb]; [|discriminate].
+    destruct (nonempty (oblob (get2 (number, h) (k_body k)))) eqn:E2; cbn [negb]; [|discriminate].
+    destruct (nonempty (oblob (get2 (number, h) (k_rcpt k)))) eqn:E3; cbn [negb]; [|discriminate].
+    intros H. apply IH in H as (items & -> & Hi).
+    eexists (_ :: items). split; [cbn [rev]; rewrite <- app_assoc; reflexivity|].
+    intros [|i] it Hn.
+    + cbn in Hn. inversion Hn; subst it. rewrite N.add_0_r. unfold item_ok. fold h. cbn.
+      apply N.eqb_neq in E0. repeat (split; [auto; fail|]); auto.
+    + cbn in Hn. apply Hi in Hn. replace (number + N.of_nat (S i)) with (number + 1 + N.of_nat i) by lia.
+      exact Hn.
+Qed.
+
+Hypothesis HR0 : Rel s0.
+Hypothesis Hhashed : forall n h b, In ((n, h), b) (k_hdr (s_kv s0)) -> h = C n -> keccak b = h.
+Hypothesis Hlinked : forall n h b, In ((n, h), b) (k_hdr (s_kv s0)) -> 1 <= n -> h = C n ->
+                                   hdr_parent b = Some (C (n - 1)).
+Hypothesis Huniq : forall n m h b, In ((m, h), b) (k_hdr (s_kv s0)) -> h = C n -> C n <> 0 -> m = n.
+
+Lemma item_ok_matches t n it :
+  Rel t -> canon_sub t -> f_durable (s_fz t) <= n -> item_ok (s_kv t) n it -> item_matches n it.
+Proof.
+  intros R S Hd (E1 & E2 & E3 & E4 & E5 & E6 & E7 & E8 & E9).
+  assert (HC : C n <> 0) by (eapply canon_nonzero; eauto).
+  assert (Hv := R_kv _ R n Hd HC). rewrite nofreeze_view in Hv. cbv zeta in Hv.
+  assert (Hh : ohash (get1 n (k_canon (s_kv t))) = C n).
+  { apply (f_equal v_canon) in Hv. cbn [v_canon] in Hv. exact Hv. }
+  rewrite Hh in *.
+  assert (F2 := f_equal v_hdr Hv). assert (F3 := f_equal v_has_hdr Hv).
+  assert (F5 := f_equal v_body Hv). assert (F6 := f_equal v_cbody Hv).
+  assert (F7 := f_equal v_cbody_nil Hv). assert (F8 := f_equal v_has_body Hv).
+  assert (F9 := f_equal v_rcpt Hv). assert (F10 := f_equal v_crcpt Hv).
+  assert (F11 := f_equal v_crcpt_nil Hv). assert (F12 := f_equal v_has_rcpt Hv).
+  assert (F13 := f_equal v_bal Hv).
+  cbn [v_hdr v_has_hdr v_body v_cbody v_cbody_nil v_has_body v_rcpt v_crcpt v_crcpt_nil v_has_rcpt v_bal] in F2, F3, F5, F6, F7, F8, F9, F10, F11, F12, F13.
+  rewrite E3 in E4. rewrite E5 in E6. rewrite E7 in E8.
+  destruct (nonempty_oblob _ E4) as [bh Gh].
+  destruct (nonempty_oblob _ E6) as [bb Gb].
+  destruct (nonempty_oblob _ E8) as [br Gr].
+  unfold item_matches, complete.
+  rewrite <- F2, <- F5, <- F6, <- F7, <- F9, <- F10, <- F11, <- F13, <- F3, <- F8, <- F12.
+  unfold kv_has. rewrite Gh, Gb, Gr in *. cbn [oblob] in *.
+  assert (Hk : keccak bh = C n).
+  { apply (R_sub_hdr _ R) in Gh. apply get2_In in Gh. eapply Hhashed; eauto. }
+  repeat (split; [assumption || reflexivity|]). reflexivity.
 Qed.
 
 End Ref.
